@@ -71,20 +71,42 @@ func runC06(c *eng.Ctx, thorough bool) {
 			// inside the closure
 			c.Clause("R4", "C06.1")
 			fail := eng.CondEdges(clo, `^\^retErr == nil$`, false)
-			route := instrsOf(eng.Calls(clo, `routing\.\(\*Router\)\.Route$`))
-			del := instrsOf(eng.Calls(clo, `vault\.\(\*ExpirationManager\)\.deleteEntry$`))
-			rmi := instrsOf(eng.Calls(clo, `vault\.\(\*ExpirationManager\)\.removeIndexByToken$`))
+			// a cleanup step is the call itself or a call of a closure / helper of this package that performs
+			// it on every path (props/c04follow.go): the rollback body may live in a function of its own
+			cloFr := &nfFrame{call: deferIn[0].(ssa.CallInstruction)}
+			routeS := nfMust(clo, cloFr, nfNamed(`routing\.\(\*Router\)\.Route$`), 2)
+			route := nfAts(routeS)
+			del := nfAts(nfMust(clo, cloFr, nfNamed(`vault\.\(\*ExpirationManager\)\.deleteEntry$`), 2))
+			rmi := nfAts(nfMust(clo, cloFr, nfNamed(`vault\.\(\*ExpirationManager\)\.removeIndexByToken$`), 2))
 			c.CleanupOnEdges(clo, "retErr != nil", fail, "router.Route(RevokeRequest) for the fresh secret", route)
 			c.CleanupOnEdges(clo, "retErr != nil", fail, "deleteEntry", del)
 			c.CleanupOnEdges(clo, "retErr != nil", fail, "removeIndexByToken", rmi)
 			c.Clause("R5", "C06.1")
-			for _, r := range route {
-				rc := r.(ssa.CallInstruction)
-				c.Prov(clo, "request routed by the rollback", r, rc.Common().Args[2], `^call:logical\.RevokeRequest$`)
+			secretF := c.P.Field("logical.Response.Secret")
+			if secretF == nil {
+				c.Unresolved("logical.Response.Secret")
 			}
-			for _, rr := range eng.Calls(clo, `^logical\.RevokeRequest$`) {
-				a := rr.Common().Args
-				c.Prov(clo, "secret revoked by the rollback", rr, a[1], `^field:\^resp\.Secret$`)
+			respIdx := nfParamIndex(f, "resp")
+			for _, e := range nfEffs(routeS) {
+				c.Prov(e.Fn, "request routed by the rollback", e.Call.In, e.Call.Args[2], `^call:logical\.RevokeRequest$`)
+				// the secret revoked is the Secret of the response Register was called with, however the
+				// rollback reaches that response (captured variable, parameter of the rollback helper)
+				for _, rr := range eng.Calls(e.Fn, `^logical\.RevokeRequest$`) {
+					site := "prov{secret revoked by the rollback}"
+					ok, bad := nfAll(rr.Common().Args[1], e.Fr, func(o eng.Origin) bool {
+						base, is := nfFieldOf(o, secretF)
+						if !is {
+							return false
+						}
+						isResp, _ := nfIsParamOf(base, e.Fr, f, respIdx)
+						return isResp
+					})
+					if ok {
+						c.OK(e.Fn, site, rr.Pos(), "the Secret of the response Register was called with")
+					} else {
+						c.Violation(e.Fn, site, rr.Pos(), "the rollback revokes "+eng.Expr(rr.Common().Args[1])+" ("+bad+"), not the secret of the response being registered", nil)
+					}
+				}
 			}
 		}
 		// success path
@@ -242,7 +264,9 @@ func runC06(c *eng.Ctx, thorough bool) {
 		ct := eng.Calls(f, `vault\.\(\*Core\)\.CreateToken$`)
 		if c.Floor(f, "CreateToken call", len(ct), 1) {
 			okEdges := eng.CallOKEdges(ct[0])
-			revoke := instrsOf(eng.Calls(f, `vault\.\(\*TokenStore\)\.revokeOrphan$`))
+			// the revocation itself, or a closure / helper that performs it on every path
+			revokeS := nfMust(f, nil, nfNamed(`vault\.\(\*TokenStore\)\.revokeOrphan$`), 2)
+			revoke := nfAts(revokeS)
 			var failing []ssa.Instruction
 			nOK := 0
 			for _, r := range eng.ReturnsFrom(f, okEdges, nil, nil) {
@@ -259,8 +283,28 @@ func runC06(c *eng.Ctx, thorough bool) {
 				c.OK(f, "after{CreateToken ok} revokeOrphan before every failing exit", ct[0].Pos(), "all failing exits after token creation pass through tokenStore.revokeOrphan")
 			}
 			c.Clause("R5", "C06.3")
-			for _, ro := range revoke {
-				c.Prov(f, "token revoked on failure", ro, ro.(ssa.CallInstruction).Common().Args[2], `^field:&te\.ID$`)
+			// the token revoked is the ID of the entry handed to CreateToken (the same variable, seen in
+			// place or through a capturing closure)
+			idF := c.P.Field("logical.TokenEntry.ID")
+			if idF == nil {
+				c.Unresolved("logical.TokenEntry.ID")
+			}
+			created := nfCellOf(ct[0].Common().Args[2])
+			for _, e := range nfEffs(revokeS) {
+				site := "prov{token revoked on failure}"
+				if created == nil {
+					c.Undecided(e.Fn, site, e.Call.In.Pos(), "the entry handed to CreateToken is not the address of a local variable: the rule cannot be evaluated")
+					continue
+				}
+				ok, bad := nfAll(e.Call.Args[2], e.Fr, func(o eng.Origin) bool {
+					base, is := nfFieldOf(o, idF)
+					return is && created != nil && nfCellOf(base) == created
+				})
+				if ok {
+					c.OK(e.Fn, site, e.Call.In.Pos(), "the ID of the entry handed to CreateToken")
+				} else {
+					c.Violation(e.Fn, site, e.Call.In.Pos(), "on failure "+eng.Expr(e.Call.Args[2])+" ("+bad+") is revoked, not the wrapping token created above", nil)
+				}
 			}
 			// the (nil, nil) success crosses RegisterAuth success
 			c.Clause("R2", "C06.3")
